@@ -238,3 +238,73 @@ def build(r, env=None, cc=None):
 def fresh(r):
     """a freshly built object for every call (the known C09 rebinding must not contaminate later observations)"""
     return build(r, {})
+
+
+# ----------------------------------------------------------------------------- hostile twins
+def twins(recipe, rng, n=2):
+    """variants of a recipe that collide with it under the library's own hash/eq functions while meaning something else:
+    leaf bounds with an equal hash sum ((lo,hi) -> (lo+1,hi-1), (-1,k) <-> (-2,k)), bounds swapped between two leaves,
+    thresholds -1 <-> -2 (hash(-1) == hash(-2)). A memo keyed on hash/eq hands the twin the original's answer."""
+    import copy
+    out = []
+    leaves = {}
+    for nd in _walk(recipe):
+        if nd["k"] == "var":
+            leaves.setdefault(nd["id"], tuple(nd["b"]))
+    for _ in range(n):
+        t = copy.deepcopy(recipe)
+        kind = rng.choice(["shrink", "shrink", "swap", "value", "force"])
+        changed = False
+        if kind == "shrink":
+            cand = [i for i, (lo, hi) in leaves.items() if hi - lo >= 2 or lo in (-1, -2)]
+            if cand:
+                i = rng.choice(cand)
+                lo, hi = leaves[i]
+                nb = (lo + 1, hi - 1) if hi - lo >= 2 and rng.random() < 0.7 else ((-2, hi) if lo == -1 else (-1, hi) if lo == -2 else (lo + 1, hi - 1))
+                if nb[0] <= nb[1]:
+                    _set_bounds(t, i, nb)
+                    changed = True
+        elif kind == "swap":
+            ids = [i for i in leaves]
+            pairs = [(a, b) for a in ids for b in ids if a < b and leaves[a] != leaves[b]]
+            if pairs:
+                a, b = rng.choice(pairs)
+                _set_bounds(t, a, leaves[b])
+                _set_bounds(t, b, leaves[a])
+                changed = True
+        elif kind == "value":
+            cand = [nd for nd in _walk(t) if nd["k"] in ("AtMost",) and nd.get("value") in (1, 2)] + \
+                   [nd for nd in _walk(t) if nd["k"] == "AtLeast" and nd.get("value") in (-1, -2)]
+            if cand:
+                nd = rng.choice(cand)
+                nd["value"] = {1: 2, 2: 1, -1: -2, -2: -1}[nd["value"]]
+                changed = True
+        else:
+            # force a colliding pair on a boolean leaf pair of the base: (0,3)/(1,2) cannot be told apart by Bounds.__hash__
+            ids = list(leaves)
+            if ids:
+                i = rng.choice(ids)
+                b1, b2 = rng.choice(TWINS)
+                _set_bounds(recipe, i, b1)       # NOTE: modifies the base recipe too (done before anything is built)
+                t = copy.deepcopy(recipe)
+                _set_bounds(t, i, b2)
+                leaves[i] = tuple(b1)
+                changed = True
+        if changed:
+            out.append(t)
+    return out
+
+
+def _walk(r):
+    yield r
+    for a in r.get("args", ()):
+        yield from _walk(a)
+
+
+def _set_bounds(r, leaf_id, b):
+    for nd in _walk(r):
+        if nd["k"] == "var" and nd["id"] == leaf_id:
+            nd["b"] = [int(b[0]), int(b[1])]
+        elif nd["k"] == "str" and nd["id"] == leaf_id:
+            nd["k"] = "var"
+            nd["b"] = [int(b[0]), int(b[1])]
